@@ -152,7 +152,8 @@ static int addr_marker(int family, const void *addr) {
     if (b[0] == 192) return (b[1] << 16) | (b[2] << 8) | b[3];
     return -1000 - b[3];
   }
-  if (b[0] == 0x20 && b[1] == 0x01) return (b[13] << 16) | (b[14] << 8) | b[15];
+  if (b[0] == 0x20 && b[1] == 0x01 && ((b[2] == 0 && b[3] == 0) || (b[2] == 0x0d && b[3] == 0xb8 && b[4] == 0)))
+    return (b[13] << 16) | (b[14] << 8) | b[15];
   return -1000 - b[15];
 }
 
@@ -771,6 +772,7 @@ void run_history(const J &hist) {
     ev("{\"e\":\"end\",\"nocb\":[],\"frames\":0,\"leaked\":%ld,\"allocs\":%ld}", g_live_allocs, g_alloc_count);
     return;
   }
+  g_v6src_global = g_cfg["v6srcglobal"].num() != 0;
   if (g_cfg["localip"].num()) {  // a configured source address: every new socket is bound to it
     ares_set_local_ip4(g_channel, 0x0a090001u);
     unsigned char ip6[16] = {0xfd, 9, 0, 0, 0, 0, 0, 0, 0, 0, 0, 0, 0, 0, 0, 1};
